@@ -61,7 +61,7 @@ def natkey(s):
 def snapshot(d):
     rw = G.RawWorld(d)
     snap = {"exists": {f: f in rw.h for f in G.FILES}, "dig": {}, "extra": {}, "slots": {}, "ident": {}, "status": {},
-            "flags": {}, "root": {}, "allcoll": {}, "keys": {}, "sym": {}}
+            "flags": {}, "root": {}, "allcoll": {}, "keys": {}, "sym": {}, "linked": {}}
     try:
         for f in G.FILES:
             snap["flags"][f] = rw.graph_flags(f)
@@ -70,6 +70,13 @@ def snapshot(d):
                 st, f1, o, slots = rw.walk(f, q)
                 snap["status"][(f, q)] = st
                 snap["sym"][(f, q)] = rw.last_sym
+                # is there a link of that name at all (possibly dangling) in the parent group?
+                cq = G.comps(q)
+                linked = bool(cq) and False
+                if cq:
+                    stp, fp_, op_, _ = rw.walk(f, cq[:-1])
+                    linked = stp == "ok" and hasattr(op_, "get") and hasattr(op_, "keys") and op_.get(cq[-1], getlink=True) is not None
+                snap["linked"][(f, q)] = linked
                 snap["slots"][(f, q)] = slots
                 snap["ident"][(f, q)] = rw.ident(f1, o) if st == "ok" else None
                 dg = rw.digest(f, q)
@@ -214,7 +221,7 @@ def oracle_step(d, op, outcome, S0, S1, listing, iscool):
         sf, sp, df, dp = op["sf"], G.pstr(G.comps(op["sp"])), op["df"], G.pstr(G.comps(op["dp"]))
         par = G.pstr(G.comps(dp)[:-1])
         pre = (S0["dig"].get((sf, sp)) is not None and not S0["sym"].get((sf, sp), True)
-               and G.comps(dp) and S0["status"].get((df, dp)) == "missing"
+               and G.comps(dp) and S0["status"].get((df, dp)) == "missing" and not S0["linked"].get((df, dp), True)
                and (par, S0["status"].get((df, par)), S0["sym"].get((df, par))) in
                    ((par, "ok", False), ("/a", "missing", False), ("/c2", "missing", False))
                and not op.get("ow") and (kind != "ln" or sf == df)
